@@ -28,6 +28,11 @@
 //	    truncated, extended), and altered copies of genuine headers in the fields OUTSIDE Model/Types.header (ValidatorHash,
 //	    LastCommitHash, ConsensusHash, LastResultsHash, Version) under the genuine signature — on DA, on P2P, in ranges.
 //
+//	(h) identity copies and key-less signers: third-party copies of a proposer's header / signed data that keep its identity
+//	    (header hash, data commitment: neither covers signature or signer) under another signature or signer, and signers
+//	    that are an address without a public key - ahead of the proposer's own blob at an earlier DA height or inside the
+//	    same DA height, behind it, and as header gossip.
+//
 // Writes cases_C03.v (for Model/Admission.v) and result.json (oracle).
 package c03
 
@@ -42,6 +47,7 @@ import (
 	"path/filepath"
 	"sort"
 	"strings"
+	"sync/atomic"
 	"testing"
 	"testing/synctest"
 
@@ -217,6 +223,7 @@ type runResult struct {
 	rangeTaken      []admitted        // headers of a range, not signed by the proposer, that the sync loop took (cached / seen)
 	rangeAdv        bool              // a range item held a third party's header: the content of the header store is the premise
 	rangeUncovered  bool              // ... and a block from that height on is never published on DA (the P2P store was its only way in)
+	crashWhat       string            // the third party's item a goroutine of the node panicked on
 }
 
 // skip: a blob signed by the proposer sat at position pos of a DA height of n blobs and was passed over
@@ -237,6 +244,9 @@ const (
 	sigHaltP2P    = "sync-halts-after-unauthenticated-p2p-data"
 	sigDivergeP2P = "end-state-diverges-after-forged-p2p-item"
 	sigUnexpected = "unexpected-admission"
+	// a goroutine of the node (retrieve loop, a store loop, sync loop, DA includer) panicked while the node was handling an
+	// item a third party made: node/full.go starts these goroutines bare, the process is gone
+	sigCrash = "third-party-item-panics-node-goroutine"
 	// a DA height whose scan returned nil (so RetrieveLoop moves on for good) although a blob signed by the
 	// proposer that the DA layer holds at that height was neither marked DA-included nor handed to the syncer
 	sigSkipped      = "proposer-blob-skipped-at-da-height"
@@ -309,11 +319,50 @@ func (w *world) run(items []Item) *runResult {
 	res := &runResult{}
 	errCh := make(chan error, 8)
 	syncDone := make(chan struct{})
-	go func() { n.m.SyncLoop(ctx, errCh); close(syncDone) }()
-	go n.m.HeaderStoreRetrieveLoop(ctx)
-	go n.m.DataStoreRetrieveLoop(ctx)
-	go n.m.DAIncluderLoop(ctx, errCh)
+	// the node's goroutines as node/full.go starts them; a panic in one of them ends the process: recorded, not fatal to the harness
+	var loopPanic atomic.Bool
+	guard := func(f func()) {
+		defer func() {
+			if r := recover(); r != nil {
+				loopPanic.Store(true)
+			}
+		}()
+		f()
+	}
+	syncPanicked := false
+	go func() {
+		defer func() {
+			if !syncPanicked {
+				close(syncDone)
+			}
+		}()
+		defer func() {
+			if r := recover(); r != nil {
+				syncPanicked = true
+				loopPanic.Store(true)
+			}
+		}()
+		n.m.SyncLoop(ctx, errCh)
+	}()
+	go guard(func() { n.m.HeaderStoreRetrieveLoop(ctx) })
+	go guard(func() { n.m.DataStoreRetrieveLoop(ctx) })
+	go guard(func() { n.m.DAIncluderLoop(ctx, errCh) })
 	synctest.Wait()
+	// crashedBy: the node is gone; the item it was handling is named when a third party made it (or part of it)
+	crashedBy := func(i int, it Item) {
+		if res.crashed {
+			return
+		}
+		res.crashed = true
+		adv := it.Adv
+		for _, b := range it.Blobs {
+			adv = adv || b.Adv
+		}
+		if adv {
+			res.admitted = append(res.admitted, admitted{i, sigCrash})
+			res.crashWhat = fmt.Sprintf("item %d (%s)", i, it)
+		}
+	}
 	tick := func() {
 		select {
 		case n.m.VerifHeaderStoreCh() <- struct{}{}:
@@ -398,6 +447,9 @@ func (w *world) run(items []Item) *runResult {
 				} else {
 					tick()
 				}
+				if loopPanic.Load() {
+					crashedBy(i, it)
+				}
 			}
 			res.outs = append(res.outs, out)
 			res.itemTerms = append(res.itemTerms, "(IStoreRange ["+strings.Join(terms, "; ")+"])")
@@ -409,8 +461,15 @@ func (w *world) run(items []Item) *runResult {
 			if !res.crashed {
 				out = 10 + w.scanHeight(ctx, n, res, i, uint64(i+1), subs, blobs)
 				synctest.Wait()
-				if !res.crashed {
+				if res.crashed { // the retrieve goroutine panicked inside the scan
+					res.crashed = false
+					crashedBy(i, it)
+					res.crashed = true
+				} else {
 					tick()
+				}
+				if loopPanic.Load() {
+					crashedBy(i, it)
 				}
 			}
 			res.outs = append(res.outs, out)
@@ -449,11 +508,19 @@ func (w *world) run(items []Item) *runResult {
 			switch {
 			case o.panicked:
 				out = 3
-				res.crashed = true
 			case o.hmark || o.dmark:
 				out = 2
 			case o.handled:
 				out = 1
+			}
+			// a blob the proposer signed (header, or signed data of a non-empty block) that the retriever passed over: no
+			// DA-included mark, nothing handed to the syncer, and the retrieve loop moves on to the next DA height
+			if !it.Adv && !o.panicked && out < 2 && (b.sh != nil || b.sd != nil) {
+				kind := fmt.Sprintf("signed data of block %d", it.H)
+				if b.sh != nil {
+					kind = fmt.Sprintf("header of block %d", b.sh.Height())
+				}
+				res.skipped = append(res.skipped, skip{i, 0, 1, kind})
 			}
 		case "p2p":
 			if b.sh != nil {
@@ -470,7 +537,7 @@ func (w *world) run(items []Item) *runResult {
 			}
 		}
 		synctest.Wait()
-		if !res.crashed {
+		if out != 3 {
 			tick()
 		}
 		res.outs = append(res.outs, out)
@@ -479,16 +546,18 @@ func (w *world) run(items []Item) *runResult {
 		// truncated, replaced): the signature still verifies over the header, ValidateBasic does not pass, go-header
 		// stores it all the same and then refuses the proposer's gossip of that height as known — the F4 mechanism
 		mangled := it.Via == "p2p" && it.Adv && b.sh != nil && !w.signerIsProposers(b.sh)
-		if out >= 2 && (w.isAdversarial(b) || mangled) {
-			cl := w.admissionClass(b)
-			if out == 3 {
-				if cl == sigF3Data && b.sd.Metadata == nil {
-					cl = sigPanic
-				} else {
-					cl = sigUnexpected
-				}
+		if out == 3 {
+			if b.sd != nil && w.isAdversarial(b) && w.admissionClass(b) == sigF3Data && b.sd.Metadata == nil {
+				res.crashed = true
+				res.admitted = append(res.admitted, admitted{i, sigPanic})
+			} else {
+				crashedBy(i, it)
 			}
-			res.admitted = append(res.admitted, admitted{i, cl})
+		} else if out >= 2 && (w.isAdversarial(b) || mangled) {
+			res.admitted = append(res.admitted, admitted{i, w.admissionClass(b)})
+		}
+		if loopPanic.Load() {
+			crashedBy(i, it)
 		}
 	}
 	select {
@@ -681,6 +750,8 @@ func (w *world) oracle(ref, got *runResult) (sigs []string, what map[string]stri
 			add(a.class, fmt.Sprintf("item %d: transaction data signed with a third-party key under the proposer's address was marked DA-included and handed to the syncer", a.idx))
 		case sigPanic:
 			add(a.class, fmt.Sprintf("item %d: forged signed data without Metadata is admitted and handlePotentialData dereferences nil (the retrieve goroutine panics: the node dies)", a.idx))
+		case sigCrash:
+			add(a.class, "a goroutine of the node panicked (node/full.go starts it bare: the process dies, and dies again when it re-reads the item after a restart) while handling third-party material: "+got.crashWhat)
 		case sigF4:
 			add(a.class, fmt.Sprintf("item %d: a header not signed by the proposer (it only names the proposer's address and hash-links to the head), or a third party's copy of a genuine header with the signer replaced (ValidateBasic fails on it), was appended to the header store served to light clients", a.idx))
 		case sigP2PData:
@@ -704,7 +775,7 @@ func (w *world) oracle(ref, got *runResult) (sigs []string, what map[string]stri
 	if got.scanErr != "" {
 		add(sigScanErr, "processNextDAHeaderAndData failed on a DA height the DA layer serves without error: "+got.scanErr)
 	}
-	if got.crashed && !known[sigPanic] {
+	if got.crashed && !known[sigPanic] && !known[sigCrash] {
 		add("unexplained-crash", "a goroutine of the node panicked")
 	}
 	if len(got.foreignData) > 0 || (len(got.foreignExec) > 0 && len(got.unsignedApplied) == 0) {
@@ -1437,6 +1508,219 @@ func firstDA(items []Item, h uint64, kind string) int {
 	return -1
 }
 
+// ---- (h) copies that keep the IDENTITY of a genuine item, and signers without a public key: a PRNG of their own ----------
+//
+// The node names a header by Header.Hash() and signed data by Data.DACommitment(): neither covers the signature or the
+// signer.  A third party that has seen the proposer's item (gossip, the DA layer itself) can post a COPY with the same
+// identity and another signature / signer - no private key needed - ahead of the proposer's own blob: at an earlier DA
+// height, or earlier in the same DA height.  Whatever the node remembers about the copy under that identity must not
+// touch the proposer's item.  The wire format also allows a signer that has an address and NO public key.
+
+// genShadowHdr: a copy of the proposer's header of block h: same Header, other signature and / or signer
+func genShadowHdr(r *rand.Rand, h uint64, via string) Item {
+	it := Item{Adv: true, Via: via, Kind: "hdr", H: h, Salt: int64(1 + r.Intn(1000)), SignerKey: -1, SignerAddr: -1, PropAddr: -1}
+	k := 2 + r.Intn(2)
+	switch p := r.Intn(100); {
+	case p < 22: // the proposer's signer, the signature replaced by random bytes
+		it.Sign = -1
+	case p < 32: // the proposer's signer, a third party's signature over the same header
+		it.Sign = k
+	case p < 40: // the signature removed
+		it.Sign = -2
+	case p < 58: // the genuine signature, the public key removed, the address kept
+		it.SignerKey = -2
+	case p < 68: // no public key, the address kept, random signature
+		it.SignerKey, it.Sign = -2, -1
+	case p < 74: // the whole signer removed
+		it.SignerKey = 0
+	case p < 84: // a third party's key and signature under the proposer's address
+		it.Sign, it.SignerKey, it.SignerAddr = k, k, 1
+	case p < 90: // the genuine signature next to a third party's key
+		it.SignerKey, it.SignerAddr = k, 1
+	default: // not a copy: a third party's header under its OWN address everywhere, signed, without its public key
+		it.Sign, it.SignerKey, it.SignerAddr, it.PropAddr = k, -2, k, k
+	}
+	return it
+}
+
+// genShadowData: a copy of the proposer's signed data of block h: same Data (same commitment), other signature / signer;
+// for an empty block (the proposer posts no data blob) invented transactions
+func genShadowData(r *rand.Rand, h uint64, empty bool) Item {
+	it := Item{Adv: true, Via: "da", Kind: "data", H: h, Salt: int64(1 + r.Intn(1000)), SignerKey: -1, SignerAddr: -1, PropAddr: -1, NewTxs: empty}
+	k := 2 + r.Intn(2)
+	switch p := r.Intn(100); {
+	case p < 22:
+		it.Sign = -1
+	case p < 32:
+		it.Sign = k
+	case p < 40:
+		it.Sign = -2
+	case p < 60:
+		it.SignerKey = -2
+	case p < 72:
+		it.SignerKey, it.Sign = -2, -1
+	case p < 80: // no public key, the proposer's address, invented transactions, a third party's signature
+		it.SignerKey, it.Sign, it.NewTxs = -2, k, true
+	case p < 86:
+		it.SignerKey = 0
+	case p < 94:
+		it.Sign, it.SignerKey, it.SignerAddr = k, k, 1
+	default:
+		it.SignerKey, it.SignerAddr = k, 1
+	}
+	return it
+}
+
+// isShadow: a third party's item with the content of the proposer's item of block H (nothing inside the hash / commitment altered)
+func isShadow(it Item, L uint64) bool {
+	return it.Adv && (it.Kind == "hdr" || it.Kind == "data") && it.Mut == "" && !it.NewTxs && !it.NoMeta && it.Resplit == 0 && it.PropAddr == -1 &&
+		it.H >= 1 && it.H <= L && (it.Sign != 0 || it.SignerKey != -1 || it.SignerAddr != -1)
+}
+
+// shadowCase adds the items of stream (h) to a generated case.
+func shadowCase(seed int64, c int, rp *Replay, L uint64) {
+	rs := rand.New(rand.NewSource(seed*7368787 + int64(c)*31 + 4409))
+	if rp.Kind == "adm" {
+		for i := 0; i < 4; i++ {
+			rp.Items = append(rp.Items, genShadowHdr(rs, 1+uint64(rs.Intn(int(L))), "da"))
+		}
+		for i := 0; i < 3; i++ {
+			h := 1 + uint64(rs.Intn(int(L)))
+			rp.Items = append(rp.Items, genShadowData(rs, h, rp.TxCount[h-1] == 0))
+		}
+		for i := 0; i < 2; i++ {
+			rp.Items = append(rp.Items, genShadowHdr(rs, 1+uint64(rs.Intn(int(L))), "p2p"))
+		}
+		return
+	}
+	if rs.Intn(100) >= 60 {
+		return
+	}
+	start := 0
+	for start < len(rp.Items) && rp.Items[start].Via == "init" {
+		start++
+	}
+	for j, n := 0, 1+rs.Intn(2); j < n; j++ {
+		kind := "hdr"
+		if rs.Intn(100) < 35 {
+			kind = "data"
+		}
+		// where the proposer's blob of that kind reaches the node over DA: (item, position inside a DA height or -1)
+		type place struct{ i, s int }
+		var at []place
+		for i, it := range rp.Items {
+			if !it.Adv && it.Via == "da" && it.Kind == kind && (kind == "hdr" || rp.TxCount[it.H-1] > 0) {
+				at = append(at, place{i, -1})
+			}
+			if it.Via == "dah" {
+				for s, b := range it.Blobs {
+					if !b.Adv && b.Kind == kind && (kind == "hdr" || rp.TxCount[b.H-1] > 0) {
+						at = append(at, place{i, s})
+					}
+				}
+			}
+		}
+		if len(at) == 0 || (start > 0 && rs.Intn(100) < 25) {
+			// the P2P header path: the copy gossiped right ahead of the proposer's gossip of that height
+			for i, it := range rp.Items {
+				if !it.Adv && it.Via == "p2p" && it.Kind == "hdr" && rs.Intn(100) < 50 {
+					rp.Items = insertAt(rp.Items, i, genShadowHdr(rs, it.H, "p2p"))
+					break
+				}
+			}
+			continue
+		}
+		pl := at[rs.Intn(len(at))]
+		g := rp.Items[pl.i]
+		if pl.s >= 0 {
+			g = g.Blobs[pl.s]
+		}
+		var sh Item
+		if kind == "hdr" {
+			sh = genShadowHdr(rs, g.H, "da")
+		} else {
+			sh = genShadowData(rs, g.H, false)
+		}
+		if rs.Intn(100) < 25 {
+			sh.Rep = 2 + rs.Intn(3)
+		}
+		switch p := rs.Intn(100); {
+		case p < 40: // at an earlier DA height
+			sh.Rep = 0
+			rp.Items = insertAt(rp.Items, start+rs.Intn(pl.i-start+1), sh)
+		case p < 85: // in the same DA height, ahead of the proposer's blob
+			if pl.s >= 0 {
+				hgt := rp.Items[pl.i]
+				hgt.Blobs = insertAt(hgt.Blobs, rs.Intn(pl.s+1), sh)
+				rp.Items[pl.i] = hgt
+			} else {
+				rp.Items[pl.i] = Item{Via: "dah", Blobs: []Item{sh, g}}
+			}
+		default: // behind it: same height or a later one
+			if pl.s >= 0 {
+				hgt := rp.Items[pl.i]
+				hgt.Blobs = insertAt(hgt.Blobs, pl.s+1+rs.Intn(len(hgt.Blobs)-pl.s), sh)
+				rp.Items[pl.i] = hgt
+			} else if rs.Intn(2) == 0 {
+				rp.Items[pl.i] = Item{Via: "dah", Blobs: []Item{g, sh}}
+			} else {
+				sh.Rep = 0
+				rp.Items = insertAt(rp.Items, pl.i+1+rs.Intn(len(rp.Items)-pl.i), sh)
+			}
+		}
+	}
+}
+
+// shadowDist: where the copies of stream (h) sit relative to the proposer's item they copy
+func shadowDist(items []Item, L uint64) (out []string) {
+	type pos struct{ i, s int }
+	first := map[string]pos{}
+	for i, it := range items {
+		if !it.Adv && it.Via == "da" {
+			if _, ok := first[fmt.Sprint(it.Kind, it.H)]; !ok {
+				first[fmt.Sprint(it.Kind, it.H)] = pos{i, 0}
+			}
+		}
+		if it.Via == "dah" {
+			for s, b := range it.Blobs {
+				if _, ok := first[fmt.Sprint(b.Kind, b.H)]; !ok && !b.Adv {
+					first[fmt.Sprint(b.Kind, b.H)] = pos{i, s}
+				}
+			}
+		}
+	}
+	one := func(it Item, i, s int, via string) {
+		if it.SignerKey == -2 {
+			out = append(out, "keyless-signer:"+via+":"+it.Kind)
+		}
+		if !isShadow(it, L) || via == "p2p" {
+			return
+		}
+		g, ok := first[fmt.Sprint(it.Kind, it.H)]
+		switch {
+		case !ok:
+			out = append(out, "identity-copy:"+it.Kind+":proposers-item-not-on-da")
+		case i < g.i:
+			out = append(out, "identity-copy:"+it.Kind+":at-an-earlier-da-height")
+		case i == g.i && s < g.s:
+			out = append(out, "identity-copy:"+it.Kind+":ahead-in-the-same-da-height")
+		default:
+			out = append(out, "identity-copy:"+it.Kind+":behind-the-proposers-item")
+		}
+	}
+	for i, it := range items {
+		if it.Via == "da" || it.Via == "p2p" {
+			one(it, i, 0, it.Via)
+		}
+		if it.Via == "dah" {
+			for s, b := range it.Blobs {
+				one(b, i, s, "da")
+			}
+		}
+	}
+	return out
+}
+
 func caseRng(seed int64, c int) *rand.Rand { return rand.New(rand.NewSource(seed*1000003 + int64(c))) }
 
 func genTxCounts(r *rand.Rand, tier string) []int {
@@ -1577,6 +1861,7 @@ func runE2E(t *testing.T, rp Replay, tier string, doShrink map[string]bool) *cas
 				co.dist = append(co.dist, fmt.Sprintf("e2e:near-miss-data:%s:%s:outcome=%d", it.Via, variantName(it.Resplit), got.outs[i]))
 			}
 		}
+		co.dist = append(co.dist, shadowDist(rp.Items, uint64(len(rp.TxCount)))...)
 		if got.halted {
 			co.dist = append(co.dist, "e2e:halted:"+trimErr(got.haltErr))
 		}
@@ -1772,17 +2057,24 @@ func runAdm(t *testing.T, rp Replay) *caseOut {
 				nctx, ncancel := context.WithCancel(ctx)
 				n := newNode(t, nctx, nil, w.gen, t.TempDir())
 				o := feedBlob(nctx, n, b, uint64(i+1))
-				if b.sh != nil {
-					cp := new(types.SignedHeader)
-					_ = cp.UnmarshalBinary(b.bytes)
-					o.direct = n.m.VerifIsUsingExpectedSingleSequencer(cp)
-					o.basic = cp.ValidateBasic() == nil
-				}
-				if b.sd != nil {
-					cp := new(types.SignedData)
-					_ = cp.UnmarshalBinary(b.bytes)
-					o.direct = n.m.VerifIsValidSignedData(cp)
-				}
+				func() {
+					defer func() {
+						if recover() != nil { // the direct answers are given by the same code the retrieve goroutine runs
+							o.panicked = true
+						}
+					}()
+					if b.sh != nil {
+						cp := new(types.SignedHeader)
+						_ = cp.UnmarshalBinary(b.bytes)
+						o.direct = n.m.VerifIsUsingExpectedSingleSequencer(cp)
+						o.basic = cp.ValidateBasic() == nil
+					}
+					if b.sd != nil {
+						cp := new(types.SignedData)
+						_ = cp.UnmarshalBinary(b.bytes)
+						o.direct = n.m.VerifIsValidSignedData(cp)
+					}
+				}()
 				ncancel()
 				stopNode(n)
 				synctest.Wait()
@@ -1791,16 +2083,23 @@ func runAdm(t *testing.T, rp Replay) *caseOut {
 				if (o.hmark || o.dmark || o.panicked) && w.isAdversarial(b) {
 					cl := w.admissionClass(b)
 					if o.panicked {
-						cl = sigPanic
+						if cl == sigF3Data && b.sd != nil && b.sd.Metadata == nil {
+							cl = sigPanic
+						} else {
+							cl = sigCrash
+						}
 					}
 					co.dist = append(co.dist, "admitted:"+cl)
-					if _, ok := map[string]bool{sigF3Header: true, sigF3Data: true, sigPanic: true}[cl]; ok {
+					if _, ok := map[string]bool{sigF3Header: true, sigF3Data: true, sigPanic: true, sigCrash: true}[cl]; ok {
 						if co.what == nil {
 							co.what = map[string]string{}
 						}
 						if _, dup := co.what[cl]; !dup {
 							co.sigs = append(co.sigs, cl)
 							co.what[cl] = fmt.Sprintf("item %d (%s): admitted on the DA path", i, it)
+							if o.panicked {
+								co.what[cl] = fmt.Sprintf("item %d (%s): handlePotentialHeader / handlePotentialData panics on this third-party blob (in RetrieveLoop, a bare goroutine: the node process dies, and dies again when it re-reads the DA height after a restart)", i, it)
+							}
 						}
 					} else {
 						if co.what == nil {
@@ -1902,6 +2201,7 @@ func genCase(seed int64, c int, tier string) Replay {
 		}
 		genTxDataItems(rand.New(rand.NewSource(seed*7368787+int64(c)*31+1301)), &rp, L)
 		widenCase(seed, c, &rp, L)
+		shadowCase(seed, c, &rp, L)
 		return rp
 	}
 	rp.Kind = "e2e"
@@ -1935,6 +2235,7 @@ func genCase(seed int64, c int, tier string) Replay {
 	rp.Items = interleave(r, g, adv)
 	genTxDataItems(rand.New(rand.NewSource(seed*7368787+int64(c)*31+1301)), &rp, L)
 	widenCase(seed, c, &rp, L)
+	shadowCase(seed, c, &rp, L)
 	return rp
 }
 
@@ -2038,7 +2339,7 @@ func TestVerif(t *testing.T) {
 		}
 	}
 	res.Distinct = len(distinct)
-	res.Rule = "per case a fresh world: 3 real Ed25519 keys, a real aggregator Manager producing 3-5 blocks (thorough: 3-8; 60% non-empty); every third case = admission case (10 adversarial + all genuine DA blobs each on a fresh non-aggregator Manager; 8 adversarial + genuine gossip headers through go-header's Validate/Verify/append on a real store); other cases = end-to-end: genuine traffic (P2P init 60%, each block over DA/P2P/both, 15% neighbour swaps) interleaved at random positions with 0-4 adversarial items (45% over P2P, of which 45% data; F3 shape 38% of headers, honest third party, stolen signature, unsigned hash-linked, junk signature, wrong chain id, past/future height, future time, truncated/junk/undecodable/empty blobs, forged data with and without Metadata, linked/unlinked P2P data) on a real syncing Manager under synctest, plus the genuine-only reference run; 40% of the end-to-end cases are crowded: for 1-2 blocks delivered over DA the proposer's header and/or data blob sit in ONE DA height together with 0-350 (thorough: up to 1050) third-party blobs (sizes on the boundaries of RetrieveWithHelpers' batches of 100 ids: 99,100,101,130,...,299,300,301,350, or uniform) of the adversarial DA kinds, ahead of / between / behind the proposer's blobs (45%: the proposer's blobs last or within the trailing partial batch), 30% of them also get a DA height of third-party blobs only; such a height is published on the node's DA double and read by the real processNextDAHeaderAndData -> fetchBlobs -> types.RetrieveWithHelpers (GetIDs + batched Get) -> handlePotentialHeader/Data; transaction data (own PRNG per case): every admission case adds, per block of the chain, 2 pairs (genuine signed header, data whose transaction list is a near miss of the proposer's: 60% same concatenation = re-cut at random boundaries / one boundary moved by one byte / an empty transaction added / all merged, else any of those or swapped, rotated, truncated, duplicated, one bit flipped, protobuf tag+length inside one transaction, exact copy; 10% without Metadata, 10% wrong chain id / height / older state; for an empty block: lists of empty transactions) + 1 exact copy, handed after a wire round trip to the real types.Validate and execValidate, and 6 pairs of byte-level lists (the proposer's transactions or 1-4 invented ones of 0-6 bytes over an alphabet of framing-like bytes, 1/16 with a transaction of 128-207 bytes; base vs near miss 40%, a list against itself 10%, two near misses 50%) whose real DACommitments are compared, together with sha256(leafPrefix ++ real Data{Txs} encoding) == DACommitment; half of the end-to-end cases add one near-miss data item: gossiped on the P2P data path, hash-linked, 80% right ahead of the proposer's data of that height (where the data store takes it), or - node without P2P - posted on DA under the proposer's signature of the genuine data; non-canonical items (own PRNG per case): every admission case adds on DA 3 headers whose signer / proposer address has another length than a key address (third-party key with NO signer address 30%, with a 1/2/20/31-byte prefix of the proposer's or of its own address, prefixes everywhere, the genuine header and signature with the signer's address truncated or removed, one byte too many; 35% with a field mutation on top), 1 signed-data blob of that kind, 3 altered copies of a genuine header in a field OUTSIDE the model's header (ValidatorHash 32 bytes or 1 byte, LastCommitHash, ConsensusHash, LastResultsHash, Version.App; 70% under the genuine signature and signer, else re-signed by a third party under the proposer's / its own address or junk-signed), and 2+2 of them as gossip headers through go-header's Validate/Verify/append; 45% of the end-to-end cases add one such item (40% over P2P when the node has P2P), 75% of the headers ahead of the proposer's header of that height (P2P: right ahead of the proposer's gossip of that height); ranges of the header store: 55% of the P2P end-to-end cases replace the proposer's gossip headers of heights a..b (2 or more) by ONE item = those heights appended to the node's real go-header store in one store.Append (no check of its own: what its syncer does after a range request), then one tick, so the real HeaderStoreRetrieveLoop reads the whole range in one pass; each position holds a third party's header with probability 40% (at least one in 70% of the all-genuine draws): self-consistent under the third party's own key and address 45%, third-party key under the proposer's address 15%, unsigned naming the proposer 10%, non-canonical address 10%, altered outside field 12%, altered copy under the genuine signature 8%; 30% of those without a mutation get one (app, time, datahash, last, chain, or height+ - with height+ the range does not continue the store and is not appended); every block from the first third-party position on is also published on DA (appended to the traffic if it was not); the reference run gets the range with the proposer's header at every position; observed per range: how many of its headers the sync loop took (headerCache seen) and the end state; the oracle flags a header of a range not signed by the proposer that the sync loop took or cached; non-trivial = at least one adversarial item and 4 items; distinct = distinct (tx counts, item list)"
+	res.Rule = "per case a fresh world: 3 real Ed25519 keys, a real aggregator Manager producing 3-5 blocks (thorough: 3-8; 60% non-empty); every third case = admission case (10 adversarial + all genuine DA blobs each on a fresh non-aggregator Manager; 8 adversarial + genuine gossip headers through go-header's Validate/Verify/append on a real store); other cases = end-to-end: genuine traffic (P2P init 60%, each block over DA/P2P/both, 15% neighbour swaps) interleaved at random positions with 0-4 adversarial items (45% over P2P, of which 45% data; F3 shape 38% of headers, honest third party, stolen signature, unsigned hash-linked, junk signature, wrong chain id, past/future height, future time, truncated/junk/undecodable/empty blobs, forged data with and without Metadata, linked/unlinked P2P data) on a real syncing Manager under synctest, plus the genuine-only reference run; 40% of the end-to-end cases are crowded: for 1-2 blocks delivered over DA the proposer's header and/or data blob sit in ONE DA height together with 0-350 (thorough: up to 1050) third-party blobs (sizes on the boundaries of RetrieveWithHelpers' batches of 100 ids: 99,100,101,130,...,299,300,301,350, or uniform) of the adversarial DA kinds, ahead of / between / behind the proposer's blobs (45%: the proposer's blobs last or within the trailing partial batch), 30% of them also get a DA height of third-party blobs only; such a height is published on the node's DA double and read by the real processNextDAHeaderAndData -> fetchBlobs -> types.RetrieveWithHelpers (GetIDs + batched Get) -> handlePotentialHeader/Data; transaction data (own PRNG per case): every admission case adds, per block of the chain, 2 pairs (genuine signed header, data whose transaction list is a near miss of the proposer's: 60% same concatenation = re-cut at random boundaries / one boundary moved by one byte / an empty transaction added / all merged, else any of those or swapped, rotated, truncated, duplicated, one bit flipped, protobuf tag+length inside one transaction, exact copy; 10% without Metadata, 10% wrong chain id / height / older state; for an empty block: lists of empty transactions) + 1 exact copy, handed after a wire round trip to the real types.Validate and execValidate, and 6 pairs of byte-level lists (the proposer's transactions or 1-4 invented ones of 0-6 bytes over an alphabet of framing-like bytes, 1/16 with a transaction of 128-207 bytes; base vs near miss 40%, a list against itself 10%, two near misses 50%) whose real DACommitments are compared, together with sha256(leafPrefix ++ real Data{Txs} encoding) == DACommitment; half of the end-to-end cases add one near-miss data item: gossiped on the P2P data path, hash-linked, 80% right ahead of the proposer's data of that height (where the data store takes it), or - node without P2P - posted on DA under the proposer's signature of the genuine data; non-canonical items (own PRNG per case): every admission case adds on DA 3 headers whose signer / proposer address has another length than a key address (third-party key with NO signer address 30%, with a 1/2/20/31-byte prefix of the proposer's or of its own address, prefixes everywhere, the genuine header and signature with the signer's address truncated or removed, one byte too many; 35% with a field mutation on top), 1 signed-data blob of that kind, 3 altered copies of a genuine header in a field OUTSIDE the model's header (ValidatorHash 32 bytes or 1 byte, LastCommitHash, ConsensusHash, LastResultsHash, Version.App; 70% under the genuine signature and signer, else re-signed by a third party under the proposer's / its own address or junk-signed), and 2+2 of them as gossip headers through go-header's Validate/Verify/append; 45% of the end-to-end cases add one such item (40% over P2P when the node has P2P), 75% of the headers ahead of the proposer's header of that height (P2P: right ahead of the proposer's gossip of that height); ranges of the header store: 55% of the P2P end-to-end cases replace the proposer's gossip headers of heights a..b (2 or more) by ONE item = those heights appended to the node's real go-header store in one store.Append (no check of its own: what its syncer does after a range request), then one tick, so the real HeaderStoreRetrieveLoop reads the whole range in one pass; each position holds a third party's header with probability 40% (at least one in 70% of the all-genuine draws): self-consistent under the third party's own key and address 45%, third-party key under the proposer's address 15%, unsigned naming the proposer 10%, non-canonical address 10%, altered outside field 12%, altered copy under the genuine signature 8%; 30% of those without a mutation get one (app, time, datahash, last, chain, or height+ - with height+ the range does not continue the store and is not appended); every block from the first third-party position on is also published on DA (appended to the traffic if it was not); the reference run gets the range with the proposer's header at every position; observed per range: how many of its headers the sync loop took (headerCache seen) and the end state; the oracle flags a header of a range not signed by the proposer that the sync loop took or cached; identity copies and key-less signers (own PRNG per case): a header hash / data commitment covers neither signature nor signer, so a third party can post a COPY of a proposer's item with the same identity - same Header / same Data - and another signature or signer (proposer's signer with 64 random signature bytes 22%, with a third party's signature 10%, signature removed 8%, the public key REMOVED and the address kept - the address-only signer the wire format allows - under the genuine signature 18% or random bytes 10%, whole signer removed, a third party's key under the proposer's address with its own or the genuine signature; 10% of the headers instead: a third party's header under its own address everywhere, signed, without its public key; data also: key-less signer under the proposer's address with invented transactions); every admission case adds 4 such headers and 3 such signed-data blobs on DA and 2 headers as gossip; 60% of the end-to-end cases add 1-2 of them (65% headers) tied to a proposer's blob that reaches the node over DA: 40% as a DA blob at an EARLIER DA height, 45% at an earlier position INSIDE the same DA height (a single blob becomes a DA height of the copy - 25%: 2-4 times - and the proposer's blob, read by the real processNextDAHeaderAndData), 15% behind it (control); on nodes with P2P 25% go as header gossip right ahead of the proposer's gossip of that height; the oracle flags every blob signed by the proposer, delivered alone or inside a DA height, that got no DA-included mark although the read returned nil (proposer-blob-skipped-at-da-height), and every panic of a node goroutine - retrieve path, both store loops, sync loop, DA includer, now started as node/full.go starts them with the panic recorded instead of killing the harness - while the node handles third-party material (third-party-item-panics-node-goroutine); non-trivial = at least one adversarial item and 4 items; distinct = distinct (tx counts, item list)"
 	res.Cases = len(cases)
 	header := "From Coq Require Import String NArith ZArith List Bool.\nFrom Verif Require Import Model.Types Model.Admission Check.AdmissionCheck.\nLocal Open Scope N_scope."
 	path := filepath.Join(e.Out, "cases_C03.v")
